@@ -23,6 +23,8 @@ RULE = (
 ASSUMPTIONS = ["html.parser (convert_charrefs=True) as the HTML reader", "level strings are not user text and are not injected"]
 
 CHARS = list("<>&\"'`=/!-; ") + ["\t", "é", "{", "}", "(", ")", "#", ":", "\\"]
+# compatibility look-alikes that Unicode normalisation (NFKC/NFKD) folds to ASCII markup characters
+LOOKALIKES = ["＜", "＞", "＆", "＂", "＇", "＝", "／", "﹤", "﹥", "﹠", "＜script＞", "＜img src=x onerror=alert(1)＞", "﹤svg onload=1﹥", "＆lt;", "ﬁ", "Å", "①"]
 FRAGS = [
     "script", "style", "img", "svg", "iframe", "onerror=", "onload=", "onmouseover=", "onclick=", "src=x", "href=", "javascript:", "alert(1)",
     "</div>", "</style>", "</title>", "</span>", "</main>", "</body>", "-->", "<!--", "<![CDATA[", "]]>", "</script>", "<script>", "<b>", "<svg onload=1>",
@@ -33,8 +35,33 @@ FRAGS = [
 MARKERS = ("script", "onerror", "onload", "onmouseover", "onclick", "</div>", "</style>", "</title>", "-->", "&lt", "&#", "&amp", "style=", "svg", "img")
 
 
+class _Obj:
+    """A non-str value whose text is user-controlled (what html.escape(str(x)) must still neutralise)."""
+
+    def __init__(self, text):
+        self.text = text
+
+    def __str__(self):
+        return self.text
+
+
+def wrap_value(kind, payload):
+    """user text carried by a non-str object: pathlib path, tuple/list with string components, object with __str__"""
+    import pathlib
+
+    if kind == "path":
+        return pathlib.PurePosixPath(payload) if payload and "\x00" not in payload else payload
+    if kind == "tuple":
+        return (payload, 1, 2)
+    if kind == "list":
+        return [payload]
+    if kind == "obj":
+        return _Obj(payload)
+    return payload
+
+
 def payloads(max_parts=7, extra_exclude=""):
-    part = st.one_of(st.sampled_from(FRAGS), st.sampled_from(FRAGS), st.sampled_from(CHARS), st.text(alphabet="abcxyz ", max_size=3))
+    part = st.one_of(st.sampled_from(FRAGS), st.sampled_from(FRAGS), st.sampled_from(CHARS), st.sampled_from(LOOKALIKES), st.text(alphabet="abcxyz ", max_size=3))
     s = st.lists(part, min_size=1, max_size=max_parts).map("".join)
     if extra_exclude:
         s = s.map(lambda v: "".join(ch for ch in v if ch not in extra_exclude))
@@ -42,7 +69,7 @@ def payloads(max_parts=7, extra_exclude=""):
 
 
 def nontrivial(p):
-    return (("<" in p) or ('"' in p) or ("'" in p)) and any(m in p for m in MARKERS)
+    return (("<" in p) or ('"' in p) or ("'" in p) or ("＜" in p) or ("﹤" in p)) and any(m in p for m in MARKERS)
 
 
 def selftest():
@@ -114,10 +141,11 @@ def direct_judge(case):
     gen = case["gen"]
     base = BENIGN_CLI if gen == "cli" else BENIGN_API
     pairs, benign = [], []
-    for spec in case["cards"]:
+    wraps = case.get("wrap") or {}
+    for ci, spec in enumerate(case["cards"]):
         p = dict(base)
         for slot, payload in spec.items():
-            p[slot] = payload
+            p[slot] = wrap_value(wraps.get(f"{ci}:{slot}"), payload)
         pairs.append(p)
         benign.append(dict(base))
     doc = _render(gen, pairs)
@@ -141,7 +169,11 @@ def direct_strategy(draw):
         k = draw(st.integers(1, 2))
         chosen = draw(st.lists(st.sampled_from(slots), min_size=k, max_size=k, unique=True))
         cards.append({s: draw(payloads()) for s in chosen})
-    return {"gen": gen, "cards": cards}
+    case = {"gen": gen, "cards": cards}
+    if draw(st.integers(0, 4)) == 0:
+        # the same text, but carried by a non-str value (both generators render every field with str())
+        case["wrap"] = {f"{ci}:{slot}": draw(st.sampled_from(["path", "tuple", "list", "obj"])) for ci, spec in enumerate(cards) for slot in spec if draw(st.booleans())}
+    return case
 
 
 # ---- end to end ------------------------------------------------------------------------------------------------
